@@ -27,12 +27,11 @@ import (
 var pipelineSeq atomic.Int64
 
 type realRun struct {
-	p      *pipeline.Pipeline
-	input  *fake.Plugin
-	mu     sync.Mutex
-	outs   map[int64]string
-	outCh  chan struct{}
-	closed bool
+	p     *pipeline.Pipeline
+	input *fake.Plugin
+	mu    sync.Mutex
+	outs  map[int64]string
+	outCh chan struct{}
 }
 
 func startReal(plugin string, selectors []string, capacity int) (*realRun, error) {
